@@ -8,6 +8,7 @@ mod c03;
 mod c05;
 mod c08;
 mod c13;
+mod c14;
 mod c12;
 mod c18;
 mod memclient;
@@ -48,6 +49,8 @@ fn run(name: &str, args: &Value) -> Value {
         "c05_close_in_array" => c05::close_in_array(args),
         "c05_drop_full_queue" => c05::drop_full_queue(args),
         "c13_registry" => c13::registry(args),
+        "c14_ports" => c14::ports(args),
+        "c14_single_entry" => c14::single_entry(args),
         "c08_append" => c08::append(args),
         "c08_response" => c08::response(args),
         other => {
